@@ -18,8 +18,8 @@
    (bft.getQuality).  That is modelled as it is: a crash between the block bulk and the quality write of a store
    point leaves a hole that re-delivery cannot fill (the block is already known) - finding F2, flag f2.
    Repair = TRUE is the code after the fix of F2 (bft.NewEngine -> recoverInterruptedCommit): at start-up every branch
-   head that is a store point without a persisted quality is committed (quality saved, finality advanced) as
-   CommitBlock would have done; Repair = FALSE is the code before it and must still violate ResumeConvergesAlsoF2.
+   head that is a store point is committed again (quality saved, finality advanced) as CommitBlock would have done
+   - that also completes a commit interrupted between the quality and the finalized checkpoint; Repair = FALSE is the code before it and must still violate ResumeConvergesAlsoF2.
 
    A block IS its path from genesis (BFTOps).  Score and the id order are parameters: block height / LessPath in
    the model-checking configs, logged facts in the trace specification.                                          *)
@@ -165,7 +165,9 @@ Crash == /\ up /\ crashes < MaxCrashes
 \* restart: best from the pointer, finalized from its key, log db re-synchronised with the best chain, stream resumed
 \* bft.recoverInterruptedCommit: the branch heads (at or above finalized) that are store points without a quality
 HeadsOf(S) == {h \in S : ~\E x \in S : x # h /\ IsAnc(h, x)}
-Uncommitted == {h \in HeadsOf(dBlk) : IsSP(h) /\ h \notin DOMAIN dQ /\ Len(h) >= Len(dFin)}
+\* (every store-point head is committed again: CommitBlock writes the quality first and the finalized checkpoint second,
+\* either may be the write the crash prevented; committing a fully committed head again changes nothing)
+Uncommitted == {h \in HeadsOf(dBlk) : IsSP(h) /\ Len(h) >= Len(dFin)}
 \* CommitBlock(h) on the durable state (f = the finalized checkpoint read at start-up)
 RECURSIVE Recover(_, _, _)
 Recover(Q, f, todo) ==
@@ -205,7 +207,7 @@ LaterCommit == \E k \in (lastCrashAt + 1)..Len(Stream) :
 Converged == /\ dBest = Ref.best
              /\ QualitiesRight
              /\ IsAnc(dFin, Ref.fin)
-             /\ (LaterCommit \/ crashes = 0 => dFin = Ref.fin)
+             /\ (Repair \/ LaterCommit \/ crashes = 0 => dFin = Ref.fin)
 \* resuming the stream leads to the same best block, tallies and (after one further epoch) finality - before the
 \* repair of F2 except after a crash at a quality write
 ResumeConverges == (Finished /\ (Repair \/ ~f2)) => Converged
